@@ -10,4 +10,5 @@ var v5Families = map[string]func(*engine, int, []byte) error{
 	"cli":     (*engine).checkCliLine,
 	"history": (*engine).checkHistoryLine,
 	"goenc":   (*engine).checkGoEncLine,
+	"godec":   (*engine).checkGoDecLine,
 }
